@@ -30,7 +30,7 @@ Proof. exact (registry_live bname store async_store). Qed.
 (* ... and completes without an exception, delivering per the abstract machine *)
 Theorem C09_publish_proceeds : forall h p c d i r,
   last_auth (alog (run h)) p = Some (i, r) -> In c (r_pub r) ->
-  exists s', publish p c d (run h) = Ok s' /\ Good store async_store s'.
+  exists s', publish p c d (run h) = Ok s' /\ Good (srow store) async_store s'.
 Proof. exact (publish_proceeds bname store async_store). Qed.
 End C09.
 
